@@ -300,7 +300,7 @@ func c03Model(r *fw.Rand) *model.G {
 	} else {
 		g = gen.Shape(r, gen.Kinds6[r.Intn(6)], gen.StdLayouts[r.Intn(4)], cl, gen.ShapeOpts{Big: true})
 	}
-	srids := []int{0, 0, 1, 4326, 1<<31 - 1, 1 << 31, 1<<32 - 1, int(r.Uint64() % (1 << 32))}
+	srids := []int{0, 0, 1, 4326, 1<<31 - 1, 1 << 31, 1<<32 - 1, int(r.Uint64() % (1 << 32)), 3857, 3785, 102113, 900913, 4269, 27700, 2154, 32633, 3784, 3786, 102112, 102114}
 	g.SRID = srids[r.Intn(len(srids))]
 	if g.Kind == model.Collection && r.Chance(1, 4) {
 		memberSRIDs(r, g)
@@ -590,6 +590,12 @@ func (w *observingWriter) Write(p []byte) (int, error) {
 func c03CodecOn(c *fw.Ctx, g *model.G, m wkbMode) {
 	r := c.R
 	t := spareStored(c, g, g.BuildFlat())
+	if g.Kind == model.Collection && r.Chance(1, 3) {
+		// the SRID of a collection set (again) through the generic function after its
+		// members were pushed: the members keep the SRIDs they have
+		geom.SetSRID(t, g.SRID)
+		c.Count("collection_srid_set_after_the_members_were_pushed")
+	}
 	want, fields, rerr := ref.WriteWKB(g, m.o)
 	c.Count("mode_" + m.name)
 	// encode
